@@ -18,6 +18,7 @@ type StoreProfile struct {
 	PaddedIDs  bool
 	TieRecv    bool // several messages with identical received_at
 	NoIdioms   bool // independent steps only
+	Headers    bool // most messages carry headers (several entries)
 }
 
 var defaultWeights = map[string]int{
@@ -123,6 +124,8 @@ func (g *storeGen) envSpec(label string) EnvSpec {
 	}
 	if rapid.IntRange(0, 4).Draw(t, label+".hdr") == 0 {
 		e.Headers = map[string]string{"X-K": "v"}
+	} else if g.prof.Headers && rapid.IntRange(0, 3).Draw(t, label+".hdrs") != 0 {
+		e.Headers = map[string]string{"X-K": "v", "X-Request-Id": "r-" + label, "Content-Type": "application/json", "X-Empty": ""}
 	}
 	if g.prof.ExplicitTS {
 		switch rapid.IntRange(0, 9).Draw(t, label+".ts") {
